@@ -472,7 +472,7 @@ def tier_opts(tier):
         return {"runs": 300000, "determinism_sample": 1024, "perturb_sample": 2000, "asan_runs": 60000,
                 "json_truncate_all_max": 200, "json_reads": 3, "run_timeout": 30.0, "shrink_per_class": 3,
                 "mutants": True}
-    return {"runs": 30000, "determinism_sample": 64, "perturb_sample": 300, "json_truncate_all_max": 80,
+    return {"asan_runs": 4000, "runs": 30000, "determinism_sample": 64, "perturb_sample": 300, "json_truncate_all_max": 80,
             "json_reads": 2, "run_timeout": 6.0, "shrink_per_class": 2}
 
 
